@@ -407,14 +407,16 @@ class Env:
         self.jump("sleep", i)
         over = self.call.get("overshoot") or []
         extra = over[i] if i < len(over) else 0
-        if isinstance(s, (int, float)) and math.isfinite(s) and s > 0:
-            self.clock.t += s
+        skip = isinstance(extra, dict) and extra.get("skip")
+        if isinstance(s, (int, float)) and math.isfinite(s) and s > 0 and not skip:
+            self.clock.t += s  # a sleeper may also return early ("skip": e.g. an interruptible wait)
         if self.call.get("overshoot_s"):
             o = self.call["overshoot_s"]
             self.clock.t += o[i] if i < len(o) else 0.0
         elif isinstance(extra, dict):
-            if self.deadline_ticks is not None:
+            if extra.get("until") is not None and self.deadline_ticks is not None:
                 self._advance_until(extra["until"])
+            self.clock.t += g(extra.get("plus", 0))
         else:
             self.clock.t += g(extra)
         self.trace.append(("sleep_end", self.now(), self.clock.rel()))
